@@ -5,6 +5,9 @@ Proofs/Lemmas/Dtd*.lean.  `dtd` is the table generated from tests/dtd/DSP0203_2.
 `validTree dtd t` = DTD structure of the tree (`structNode`) ∧ every character is an XML 1.0 Char (`charsOk`).
 -/
 import Proofs.Lemmas.DtdWire
+import Proofs.Lemmas.DtdUri
+import Proofs.Lemmas.DtdVal
+import Proofs.Lemmas.DtdChars
 
 namespace C03
 open Pywbem.Model Pywbem.Model.Dtd Pywbem.Model.XmlText Pywbem.Model.Sendable Pywbem.Model.Req Pywbem.Proto
@@ -213,6 +216,118 @@ theorem C03_listener_rsp_wellformed (msgid methodname desc : Str) (code : Nat) (
   obtain ⟨_, _, b3, t2, b4, b5⟩ := C03_valid_document_wellformed _ v2
   exact ⟨⟨t1, a3.trans a4, a5⟩, ⟨t2, b3.trans b4, b5⟩⟩
 
+/-- **request_headers_agree (InvokeMethod), keybinding part.**  The CIMObject header in full: with the target `lo` of
+    the call (namespace filled in, host removed) whose encoding is the first child of the METHODCALL element, the
+    header is `ns:Class` for a class and, for an instance, `ns:Class` followed — when there are keybindings — by `.` and
+    the comma-joined tokens `name=value`, exactly one per keybinding of `lo`, in an order that is a permutation of
+    the order of the KEYBINDING elements, each token agreeing with its keybinding (`KeyAgrees`: strings quoted and
+    escaped — invertibly, `C03_uri_escape_invertible` —, booleans / integers the KEYVALUE text, datetimes quoted,
+    references the quoted header form of the referenced path, reals what `repr()` prints).
+    Not proved: that the order is the sorted one (only that it is a permutation). -/
+theorem C03_invoke_cimobject_keys (C : Codec) (K : KeyCodec) (dn : Str) (m obj : Arg) (params : List MParam)
+    (h : Headers) (x : Xml) (hr : methodcall C K dn m obj params = .ok (h, x)) :
+    ∃ (hdr n c : Str) (keys : Option (List Key)),
+      header h "CIMObject" = some hdr ∧
+      bodyTarget x = some (encPath C (match keys with | some ks => Path.inst c none (some n) ks | none => Path.cls c none (some n))) ∧
+      match keys with
+      | none => hdr = n ++ ':' :: c
+      | some ks => ∃ (named sorted : List (Str × Atom)) (toks : List Str) (rec : Path → Option Str),
+          namedKeys ks = some named ∧ sorted.Perm named ∧
+          Zip2 (fun kv t => KeyAgrees C K rec kv t) sorted toks ∧
+          hdr = (if toks.isEmpty then n ++ ':' :: c else n ++ ':' :: c ++ '.' :: joinComma toks) :=
+  methodcall_cimobject_keys C K dn m obj params h x hr
+
+/-- the escaping of string key values in the header (`\\` and `"` get a backslash) loses nothing -/
+theorem C03_uri_escape_invertible (s : Str) : uriUnescape (uriEscape s) = s := uriUnescape_escape s
+
+/-- **Listener responses, every status code.**  `C03_listener_rsp_valid` without the bound on the status code: the
+    decimal digits Python's `str()` writes are XML characters for every natural number. -/
+theorem C03_listener_rsp_valid_any_code (msgid methodname desc : Str) (code : Nat)
+    (h1 : strOk msgid = true) (h2 : strOk methodname = true) (h3 : strOk desc = true) :
+    validTree dtd (listenerSuccess msgid methodname) = true ∧
+    validTree dtd (listenerError msgid methodname code desc) = true := by
+  have hcode := natToStr_ok code
+  constructor
+  · simp only [validTree, Bool.and_eq_true]
+    refine ⟨⟨rfl, struct_listenerSuccess msgid methodname⟩, ?_⟩
+    simp [listenerSuccess, listenerEnvelope, E, charsOk, charsOkList, attrsCharsOk, h1, h2]
+    decide
+  · simp only [validTree, Bool.and_eq_true]
+    refine ⟨⟨rfl, struct_listenerError msgid methodname code desc⟩, ?_⟩
+    simp [listenerError, listenerEnvelope, E, charsOk, charsOkList, attrsCharsOk, h1, h2, h3, hcode]
+    decide
+
+/-- **`tocimxml(value)` / `tocimxmlstr(value)` of a plain CIM data value** (string, char16, boolean, integer, real,
+    datetime, a list of them with NULL entries, or an object name / instance / class given as the value): whenever the
+    function returns, the element is valid, its text is accepted by the parser and what arrives is valid.  Otherwise
+    it raised (ValueError for None or a non-XML character, TypeError for a CIM object inside a list). -/
+theorem C03_value_valid (C : Codec) (v : Val) (x : Xml) (hs : valShape v = true) (h : tocimxmlValue C v = .ok x) :
+    validTree dtd x = true ∧ ∃ t', par (Xml.ser x) = some t' ∧ validTree dtd t' = true := by
+  have hv := tocimxmlValue_valid C v x hs h
+  obtain ⟨_, h2, _, t', h4, h5⟩ := C03_valid_document_wellformed x hv
+  exact ⟨hv, t', h2.trans h4, h5⟩
+
+/-- **The character hypothesis of `C03_encode_valid_partial`, discharged from the constituents of the object.**
+    `contentOkObj C o`: every string the object holds (names, class origins, reference classes, superclass, hosts,
+    namespaces, string / char16 / datetime values, keybinding names and values, at every nesting depth) consists of
+    XML characters, the codec prints reals with XML characters, and embedded instances / classes satisfy the same and
+    their shape invariants.  Then the object is sendable: no character check of `_cim_xml` can fail. -/
+theorem C03_sendable_of_content (C : Codec) (o : Obj) (hs : shapeObj o = true) (hc : contentOkObj C o = true) :
+    sendableObj C o = true := by
+  simp only [sendableObj, Bool.and_eq_true]
+  exact ⟨hs, Proofs.DtdChars.chars_encObj C o hc⟩
+
+/-- … hence validity and well-formedness of `tocimxml()` / `tocimxmlstr()` from the object's shape and content alone
+    (*partial* only through `shapeObj`, see `C03_encode_valid_partial`) -/
+theorem C03_encode_valid_of_content_partial (C : Codec) (o : Obj) (hs : shapeObj o = true) (hc : contentOkObj C o = true) :
+    validTree dtd (encObj C o) = true ∧ ∃ t', par (Xml.ser (encObj C o)) = some t' ∧ validTree dtd t' = true :=
+  ⟨C03_encode_valid_partial C o (C03_sendable_of_content C o hs hc),
+   C03_encode_wellformed C o (C03_sendable_of_content C o hs hc)⟩
+
+/-- minidom's `toxml()` of a well-formed tree consists of XML characters (this is why an embedded object, whose
+    serialisation becomes the text of a VALUE element, passes the character check of the outer element) -/
+theorem C03_ser_chars (t : Xml) (h : WfTree t) : strOk (Xml.ser t) = true := Proofs.DtdChars.ser_ok t h
+
+/-! ### up to the socket: `requests` and `http.client` (extension round) -/
+
+/-- **A request that reaches the connection**: `sendOp` = the operation method followed by the header checks of
+    `requests` (`^\\S[^\\r\\n]*\\Z|^\\Z`) and `http.client` (latin-1).  Whenever it returns `.ok`: the document is valid and
+    well-formed, the headers agree with the body, and no header value contains CR or LF (no header injection through
+    a namespace or method name) or a character outside latin-1.  Otherwise the call failed locally. -/
+theorem C03_sent_request (C : Codec) (dn : Str) (spec : OpSpec) (hmem : spec ∈ Pywbem.Generated.ops) (ns : Arg)
+    (args : List (String × Arg)) (h : Headers) (x : Xml)
+    (hshape : ∀ p ∈ args, argShape p.2 = true)
+    (hctx : ∀ n p, (n, PSrc.item0 p) ∈ spec.params → ∀ l, lookupArg args p = .list l → plainArg (listItem l 0) = true)
+    (hr : sendOp C dn spec ns args = .ok (h, x)) :
+    validTree dtd x = true ∧ (∃ t', par (declStr ++ Xml.ser x) = some t' ∧ validTree dtd t' = true) ∧
+    header h "CIMMethod" = bodyMethodName x ∧ header h "CIMObject" = bodyNamespace x ∧
+    ∀ p ∈ h, '\r' ∉ p.2 ∧ '\n' ∉ p.2 ∧ latin1Ok p.2 = true := by
+  simp only [sendOp] at hr
+  obtain ⟨r, hr1, hr2⟩ := bind_ok hr
+  obtain ⟨rfl, hh⟩ := transport_ok hr2
+  have hv := C03_request_valid C dn spec hmem ns args h x hshape hctx hr1
+  obtain ⟨_, a2, _, a4, _⟩ := C03_request_headers_agree C dn spec ns args h x hr1
+  refine ⟨hv, C03_request_wellformed C dn spec hmem ns args h x hshape hctx hr1, a2, a4, fun p hp => ?_⟩
+  obtain ⟨b1, b2⟩ := hh p hp
+  obtain ⟨c1, c2⟩ := headerValueOk_noCRLF b1
+  exact ⟨c1, c2, b2⟩
+
+/-- the same for InvokeMethod (`sendInvoke`) -/
+theorem C03_sent_invoke (C : Codec) (K : KeyCodec) (dn : Str) (m obj : Arg) (params : List MParam) (h : Headers)
+    (x : Xml) (hobj : argShape obj = true) (hparams : ∀ p ∈ params, mparamShape p = true)
+    (hr : sendInvoke C K dn m obj params = .ok (h, x)) :
+    validTree dtd x = true ∧ (∃ t', par (declStr ++ Xml.ser x) = some t' ∧ validTree dtd t' = true) ∧
+    header h "CIMMethod" = bodyMethodName x ∧ ∀ p ∈ h, '\r' ∉ p.2 ∧ '\n' ∉ p.2 ∧ latin1Ok p.2 = true := by
+  simp only [sendInvoke] at hr
+  obtain ⟨r, hr1, hr2⟩ := bind_ok hr
+  obtain ⟨rfl, hh⟩ := transport_ok hr2
+  refine ⟨C03_invoke_valid C K dn m obj params h x hobj hparams hr1,
+    C03_invoke_wellformed C K dn m obj params h x hobj hparams hr1,
+    (C03_invoke_headers_agree_partial C K dn m obj params h x hobj hparams hr1).1, fun p hp => ?_⟩
+  obtain ⟨b1, b2⟩ := hh p hp
+  obtain ⟨c1, c2⟩ := headerValueOk_noCRLF b1
+  exact ⟨c1, c2, b2⟩
+
 /-! ### non-vacuity and negation witnesses -/
 
 def toyCodec : Codec :=
@@ -241,6 +356,11 @@ theorem demoInst_sendable : sendableObj toyCodec (.inst demoInst) = true := by
     keybinding, an array property with a NULL entry and markup characters, a qualifier, a reference property -/
 example : validTree dtd (encObj toyCodec (.inst demoInst)) = true :=
   C03_encode_valid_partial toyCodec _ demoInst_sendable
+
+/-- `C03_sendable_of_content` is not vacuous: shape and content of `demoInst` are decided by evaluation, without
+    looking at the encoding -/
+example : shapeObj (.inst demoInst) = true ∧ contentOkObj toyCodec (.inst demoInst) = true := by
+  constructor <;> decide +kernel
 
 /-- `C03_encode_wellformed` is not vacuous -/
 example : ∃ t', par (Xml.ser (encObj toyCodec (.inst demoInst))) = some t' ∧ validTree dtd t' = true :=
@@ -296,6 +416,10 @@ def isOk {α : Type} : Except PyExc α → Bool
   | .ok _ => true
   | .error _ => false
 
+def errOf' {α : Type} : Except PyExc α → Option PyExc
+  | .ok _ => none
+  | .error e => some e
+
 /-- `C03_request_valid` is not vacuous: the extracted table contains GetQualifier and OpenEnumerateInstancePaths, and
     calls of them get as far as sending -/
 example : (match findOp "GetQualifier" with
@@ -322,5 +446,37 @@ theorem C03_request_valid_fails_without_normalisation :
       E "LOCALINSTANCEPATH" [] [localNsPath "a".toList, E "INSTANCENAME" [("CLASSNAME".toList, "C".toList)] []] := by
     simp [encPath, encKeys, E]
   rw [this]; decide +kernel
+
+def toyK : KeyCodec := { reprReal := fun _ _ => "1.5".toList }
+
+/-- the header of a call on an instance path: keys in code point order (`K` before `a`), the string value escaped, the
+    reference key as the quoted, escaped header form of the referenced path (its host dropped, a leading `/` kept) -/
+example : pathUri toyK 2 (.inst "C".toList none (some "root/a".toList)
+      [.mk (some "a".toList) (.str "x\"y\\".toList), .mk (some "K".toList) (.int .u8 5),
+       .mk (some "r".toList) (.ref (.inst "D".toList (some "h".toList) (some "n".toList) [.mk (some "k".toList) (.bool true)]))]) =
+    some "root/a:C.K=5,a=\"x\\\"y\\\\\",r=\"/n:D.k=TRUE\"".toList := by decide +kernel
+
+example : uriUnescape (uriEscape "x\"y\\".toList) = "x\"y\\".toList := C03_uri_escape_invertible _
+
+/-- `C03_value_valid` is not vacuous: a string with markup characters is encoded; a list holding an instance is
+    refused (TypeError); a string with U+0001 is refused (ValueError) -/
+example : tocimxmlValue toyCodec (.scalar (.str "a<b".toList)) = .ok (valueElem "a<b".toList) ∧
+    errOf' (tocimxmlValue toyCodec (.array [.einst demoInst])) = some .typeError ∧
+    tocimxmlValue toyCodec (.scalar (.str ['a', Char.ofNat 1])) = .error .valueError := by
+  refine ⟨?_, by decide +kernel, ?_⟩
+  · simp only [tocimxmlValue, atomText, checked]; rw [if_pos (by decide +kernel)]
+  · simp only [tocimxmlValue, atomText, checked]; rw [if_neg (by decide +kernel)]
+
+def errOf {α : Type} : Except PyExc α → Option PyExc
+  | .ok _ => none
+  | .error e => some e
+
+/-- a namespace with a line break never reaches the connection: the call fails locally (ConnectionError raised from
+    requests' InvalidHeader); a namespace outside latin-1 fails in http.client; a plain one is sent -/
+example : (match findOp "EnumerateQualifiers" with
+    | some spec => (errOf (sendOp toyCodec "root/cimv2".toList spec (.str "a\nX-Injected: 1".toList) []),
+                    errOf (sendOp toyCodec "root/cimv2".toList spec (.str "r\u4e2d".toList) []),
+                    errOf (sendOp toyCodec "r".toList spec .none []))
+    | none => (none, none, some .keyError)) = (some .connectionError, some .unicodeError, none) := by decide +kernel
 
 end C03
